@@ -59,14 +59,14 @@ CHECKS = {
         note="x86_64 only; trusts rustc's target-feature tables and std_detect's meaning of a feature name",
         ref="DESIGN.md section 3 C02"),
     "C05": dict(
-        technique="ordering / control-dependence rules on MIR of the slot bookkeeping + decision-table extraction of the gating predicates by abstract evaluation of MIR over a finite abstraction; data-dependence of per-channel blend sources on the loop item; registry of repair guards in blend() / patch()",
+        technique="ordering / control-dependence rules on MIR of the slot bookkeeping + decision-table extraction of the gating predicates by abstract evaluation of MIR over a finite abstraction; data-dependence of per-channel blend sources on the loop item; forward data flow from the alpha-channel index (the alpha plane is converted with its own bit depth; its region is consulted); registry of repair guards in blend() / patch()",
         text="Claimed narrowly: which reference slot a frame reads and which it is saved into. A frame's sources are read before its own "
              "save; saves are control-dependent on can_reference()/lf_level; the per-frame vectors stay index-aligned; and the complete "
              "decision tables of can_reference/is_keyframe/frame-type helpers equal the format's rules. Does not decide the blend arithmetic.",
         note="reference decision tables transcribed from ISO/IEC 18181-1; abstraction: duration {0,1,1000}, save_as_reference 0..3",
         ref="DESIGN.md section 3 C05"),
     "C06": dict(
-        technique="must-pass-through and loop-iteration path rules on MIR (cache invalidation); constant propagation over MIR (header field, enum discriminant and const-generic parameters fixed) comparing filter padding with the reach read from the kernel offset tables",
+        technique="must-pass-through and loop-iteration path rules on MIR (cache invalidation); constant propagation over MIR (header field, enum discriminant and const-generic parameters fixed) comparing filter padding with the reach read from the kernel offset tables; path rule on the cache-hit exit of RenderedImage::blend (requested region must take part); registry of repair guards",
         text="Claimed narrowly: region changes always invalidate. Every store to the requested region reaches reset_cache; reset_cache "
              "clears the loading caches and replaces the handle of every non-ReferenceOnly frame by a fresh handle built for the new "
              "region. Necessary for history-independence of region requests; does not decide padding arithmetic.",
@@ -128,7 +128,7 @@ CHECKS = {
         note="the ANS mask / table-size agreement is decided under C02 (R-UNSAFE-b); alias-table construction, prefix lookup tables and hybrid-integer expansion are not decided",
         ref="DESIGN.md section 8.9"),
     "C19": dict(
-        technique="comparison of rustc-evaluated colour constants and recognition tables with references transcribed from the cited standards or derived by formula; writer/reader agreement of the cicp tag layout (offset, element index, codes) extracted from MIR; backward data-flow slice of the recovered chromaticities (no range-limiting operation)",
+        technique="comparison of rustc-evaluated colour constants and recognition tables with references transcribed from the cited standards or derived by formula; writer/reader agreement of the cicp tag layout (offset, element index, codes) extracted from MIR; backward data-flow slice of the recovered chromaticities (no range-limiting operation); sibling agreement of the sign handling in the two scalar directions of each transfer curve",
         text="Claimed narrowly: the named colour constants. Chromaticities of the enumerated white points and primaries, the Bradford "
              "matrix and its inverse, the HLG and PQ constants equal the values of the cited standards, and the ICC parser's recognition "
              "tables map the same chromaticities to the same enum values the synthesiser writes. Does not decide anything numerical about "
@@ -136,7 +136,7 @@ CHECKS = {
         note="the rational approximations of the PQ / sRGB curves are snapshot-guarded only (stated in evidence)",
         ref="DESIGN.md section 8.9"),
     "C12": dict(
-        technique="exhaustive decision-table extraction of the buffer-width predicate by abstract evaluation of MIR; sibling-implementation cross-checks (resolved callees and operators of the I32 vs I16 arms and of the i32 vs i16 trait impls)",
+        technique="exhaustive decision-table extraction of the buffer-width predicate by abstract evaluation of MIR; sibling-implementation cross-checks (resolved callees and operators of the I32 vs I16 arms and of the i32 vs i16 trait impls); no saturating i16 arithmetic in the sample-processing crates (callee census)",
         text="Claimed narrowly: what selects the buffer width, and that both widths go through the same operations. narrow_modular equals "
              "`!force_wide && header flag` for all four input combinations and the builder setting reaches the render context; every match "
              "on ImageBuffer with separate 32-bit / 16-bit arms (15) and every i16/i32 pair of Sample/Sealed methods (12) use the same "
